@@ -5,7 +5,7 @@
 # /tmp/mt/results/<id>.txt; prints a summary table.  Not a registered check: a regression run for the
 # machinery itself (which seeded changes are caught by the checks as they are now).
 JOBS=${1:-5}; shift
-PROPS=${@:-$(ls /verif/seeded | sed 's/-.*//' | sort -u)}
+PROPS=${@:-$(ls /verif/seeded | grep -E "^C[0-9]+-" | sed "s/-.*//" | sort -u)}
 mkdir -p /tmp/mt/results
 run_prop() {
   P=$1
